@@ -26,6 +26,7 @@ def run(tier, seed):
     from ..asn import shapes
     builds = harness.make_many(tc, [seed * 1000 + 200 + i for i in range(nmod)], prof, atoms=11, composites=10)
     builds.append(harness.make(tc, seed * 1000 + 299, prof, module_fn=lambda g: shapes.build("SH")))
+    builds.append(harness.make(tc, seed * 1000 + 298, prof, module_fn=lambda g: shapes.build2("SH2")))
     from . import refenc
     for b in builds:
         if b.exe is None:
@@ -40,6 +41,9 @@ def run(tier, seed):
                 vals = shapes.values(b.mod, tname, rng, quick)
                 if quick:
                     vals = [v for i, v in enumerate(vals) if i % 3 == seed % 3][:12]
+            elif b.mod.name == "SH2":
+                b.gen.mod = b.mod
+                vals = shapes.values2(b.mod, tname, rng, quick)
             else:
                 vals = b.gen.values(t, 3 if quick else 8)
             for v in vals:
